@@ -44,6 +44,37 @@ fn main() {
     let mut rep = Report::default();
     // (a) spec table
     for c in read_cases(cases) {
+        if c["kind"] == "committee" {
+            // committee construction: accepted iff the total weight of ALL members is representable; then n = that total
+            rep.evaluations += 1;
+            rep.distinct += 1;
+            let cap = u64_of(&c["cap"]);
+            let unit = u64::MAX / cap;
+            let members = c["members"].as_array().unwrap();
+            let keys = validator_keys(members.len(), 77);
+            let infos: Vec<validator::ValidatorInfo> = members
+                .iter()
+                .zip(&keys)
+                .map(|(m, k)| validator::ValidatorInfo { key: k.public(), weight: u64_of(&m["w"]) * unit, leader: m["leader"].as_bool().unwrap() })
+                .collect();
+            let want_ok = c["ok"].as_bool().unwrap();
+            let got = catch(|| validator::Schedule::new(infos.clone(), validator::LeaderSelection { frequency: 1, mode: validator::LeaderSelectionMode::RoundRobin }).ok().map(|s| (s.total_weight(), s.max_faulty_weight(), s.quorum_threshold(), s.subquorum_threshold())));
+            match got {
+                Err(p) => rep.fail("committee_panic", format!("Schedule::new panicked: {p}"), c.clone()),
+                Ok(None) if want_ok => rep.fail("committee_refused", "a committee whose total weight is representable was refused", c.clone()),
+                Ok(Some(_)) if !want_ok => rep.fail("committee_overflow_accepted", "a committee whose total weight is not representable in 64 bits was accepted", c.clone()),
+                Ok(Some((n, f, q, sq))) => {
+                    let total = u64_of(&c["units"]) * unit;
+                    if n != total {
+                        rep.fail("committee_total_mismatch", format!("total weight {n}, members sum to {total}"), c.clone());
+                    } else if (f, q, sq) != (validator::max_faulty_weight(total), validator::quorum_threshold(total), validator::subquorum_threshold(total)) {
+                        rep.fail("committee_threshold_mismatch", format!("thresholds of the committee ({f}, {q}, {sq}) are not those of its total weight"), c.clone());
+                    }
+                }
+                Ok(None) => {}
+            }
+            continue;
+        }
         let n = u64_of(&c["n"]);
         let want = (u64_of(&c["f"]), u64_of(&c["q"]), u64_of(&c["s"]));
         rep.evaluations += 1;
